@@ -68,12 +68,13 @@ def main():
                 os.makedirs(os.path.join(root, loc), exist_ok=True)
                 shutil.copy(demo, os.path.join(root, loc, "zz_seeded_demo_test.go"))
             runs = int(meta.get("demo_runs", 3))
+            racef = "-race " if meta.get("demo_needs_race") is True else ""
             fails = 0
             for i in range(runs):
-                rc, out = sh("go test -mod=mod -vet=off -count=1 -timeout 10m -run '%s' ./%s" % (meta.get("demo_run_regex", "."), loc), cwd=m)
+                rc, out = sh("go test %s-mod=mod -vet=off -count=1 -timeout 10m -run '%s' ./%s" % (racef, meta.get("demo_run_regex", "."), loc), cwd=m)
                 fails += rc != 0
             res["demo_fails_with_patch"] = "%d/%d" % (fails, runs)
-            rc, out = sh("go test -mod=mod -vet=off -count=1 -timeout 10m -run '%s' ./%s" % (meta.get("demo_run_regex", "."), loc), cwd=clean)
+            rc, out = sh("go test %s-mod=mod -vet=off -count=1 -timeout 10m -run '%s' ./%s" % (racef, meta.get("demo_run_regex", "."), loc), cwd=clean)
             res["demo_passes_without_patch"] = rc == 0
             if rc != 0:
                 res["demo_clean_output"] = out[-1200:]
